@@ -147,6 +147,9 @@ Definition connect_name (v : svc) : option string :=
 (* tx.First(tableServices, indexService, name) != nil *)
 Definition has_instance (name : string) (s : st) : bool :=
   bool_decide (map_Exists (fun _ v => sv_name v = name) (services s)).
+(* some instance of that name and kind *)
+Definition has_instance_kind (name : string) (k : skind) (s : st) : bool :=
+  bool_decide (map_Exists (fun _ v => sv_name v = name /\ sv_kind v = k) (services s)).
 (* tx.First(tableServices, indexConnect, name) != nil *)
 Definition has_connect_instance (name : string) (s : st) : bool :=
   bool_decide (map_Exists (fun _ v => connect_name v = Some name) (services s)).
@@ -282,19 +285,21 @@ Definition check_gateway_wildcards_and_update (name : string) (ns : option (skin
            | Some w =>
              if bool_decide (g_gwkind w = KIngressGW) && negb hc then s'
              else if bool_decide (g_gwkind w = KTermGW) && negb hn && negb (bool_decide (kind = GDestination)) then s'
-             else update_gateway_service key.1.1 name key.2 (w <| g_wild := true |> <| g_skind := kind |>) s'
+             else match gws s' !! (key.1.1, name, key.2) with
+                  | Some listed => (* the gateway's entry lists the service on its own: that row is the source of truth *)
+                    if negb (g_wild listed) then s'
+                    else update_gateway_service key.1.1 name key.2 (w <| g_wild := true |> <| g_skind := kind |>) s'
+                  | None => update_gateway_service key.1.1 name key.2 (w <| g_wild := true |> <| g_skind := kind |>) s'
+                  end
            end) s (gws_of_service wildcard s).
 
-(* checkGatewayAndUpdate: only the first row of that service *)
+(* checkGatewayAndUpdate: every row of that service (collected first, then updated) *)
 Definition check_gateway_and_update (name : string) (kind : gskind) (s : st) : st :=
-  match gws_of_service name s with
-  | key :: _ =>
-    match gws s !! key with
-    | Some r => update_gateway_service key.1.1 name key.2 (r <| g_skind := kind |>) s
-    | None => s
-    end
-  | [] => s
-  end.
+  foldl (fun s' key =>
+           match gws s !! key with
+           | Some r => update_gateway_service key.1.1 name key.2 (r <| g_skind := kind |>) s'
+           | None => s'
+           end) s (gws_of_service name s).
 
 (* cleanupGatewayWildcards *)
 Definition cleanup_gateway_wildcards (name : string) (cleaning_dest : bool) (s : st) : st :=
@@ -462,7 +467,10 @@ Definition delete_service (nd sid : string) (s : st) : st :=
     let s1 := foldl (fun s' cid => delete_check nd cid s') s (checks_of_service nd sid s) in
     let s2 := s1 <| services ::= delete (nd, sid) |> in
     let s3 := cleanup_mesh_topology nd sid v s2 in
-    let s4 := if has_instance (sv_name v) s3 then s3
+    let s4 := if has_instance (sv_name v) s3
+              then (* the name may be shared by instances of several kinds *)
+                   if has_instance_kind (sv_name v) (sv_kind v) s3 then s3
+                   else cleanup_ksn (kind_str (sv_kind v)) (sv_name v) s3
               else cleanup_ksn (kind_str (sv_kind v)) (sv_name v) (free_vip (sv_name v) s3) in
     let s5 := match connect_name v with
               | Some sn =>
@@ -622,9 +630,8 @@ Definition svc_contrib (id : string) (b a : option svc) : Z :=
     + (if is_id id native_usage
        then (if bool_decide (sv_native x = sv_native y) then 0 else if sv_native x then -1 else 1) else 0)
     + (if is_id id billable_usage
-       then ind (is_consul x && negb (is_consul y) && typical y)
-            - ind (negb (is_consul x) && is_consul y)
-            + (if negb (typical x) && typical y then 1 else if typical x && negb (typical y) then -1 else 0)
+       then (let was := typical x && negb (is_consul x) in let is := typical y && negb (is_consul y) in
+             if negb was && is then 1 else if was && negb is then -1 else 0)
        else 0)
   | None, Some y => ind (is_id id "services") + ind (is_id id (connect_usage (sv_kind y)) && negb (typical y))
                     + ind (is_id id native_usage && sv_native y)
